@@ -585,8 +585,10 @@ def reader(check: Check) -> None:
 
     def split(ex_, e, recv, args, kw):
         if isinstance(recv, MObj) and recv.cls == "Line":
-            if args or kw:
-                raise Unknown(f"{fn.qualname}: a data line split at a given separator is outside the model")
+            if (args and args[0] is not None) or kw.get("sep") is not None:
+                # the values of a data line are separated by whitespace - any amount of blanks or tabs (aligned columns): split at one given
+                # separator the line does not fall into its values
+                return [] if recv.fields["kind"] == "blank" else [("field", recv.fields["id"], 0), ("not a value: the text between two separators",), ("field", recv.fields["id"], 1)]
             return [] if recv.fields["kind"] == "blank" else [("field", recv.fields["id"], 0), ("field", recv.fields["id"], 1)]
         raise Unknown(f"{fn.qualname}: split of something that is not a line")
 
@@ -618,7 +620,7 @@ def reader(check: Check) -> None:
                              "float": lambda ex_, e, args, kw: ("number", args[0])}
                     ex = AbsExec(fn.qualname, hooks, helpers={k: v for k, v in fn.cls.methods.items() if k.startswith("_") and not k.startswith("__")})
                     reader_ = MObj("Reader", {"lines": lines})
-                    env = {names[0]: MObj("FldExporter", {}), names[1]: Opaque("engine"), names[2]: Opaque("writer"), names[3]: reader_, names[4]: skip,
+                    env = {names[0]: MObj("FldExporter", {"separator": " ", "headers": True, "input_values": True, "output_values": True}), names[1]: Opaque("engine"), names[2]: Opaque("writer"), names[3]: reader_, names[4]: skip,
                            "np": Opaque("np"), "Op": Opaque("Op")}
                     # iterating the reader itself yields its lines
                     ex.iterate_hook = lambda v, lines=lines: list(lines) if v is reader_ else None  # type: ignore[attr-defined]
@@ -633,7 +635,9 @@ def reader(check: Check) -> None:
                         continue
                     want = [[("number", ("field", i, 0)), ("number", ("field", i, 1))] for i, k in enumerate(kinds) if k == "data" and i >= skip]
                     tbl = got.get("table")
-                    if tbl != want and len(bad) < 3:
+                    if tbl != want and len(bad) < 3 and isinstance(tbl, list) and any(isinstance(r_, list) and len(r_) == 3 for r_ in tbl):
+                        bad.append(f"{what}: a data line is split at a given separator instead of at any whitespace: values separated by several blanks or a tab are not read")
+                    elif tbl != want and len(bad) < 3:
                         kept = [r_[0][1][1] for r_ in tbl] if isinstance(tbl, list) and all(isinstance(r_, list) and r_ and isinstance(r_[0], tuple) for r_ in tbl) else tbl
                         bad.append(f"{what}: tabulates the lines {kept}, specified {[i for i, k in enumerate(kinds) if k == 'data' and i >= skip]} "
                                    "(a line is tabulated iff its index >= skip_lines and it is neither blank nor a comment)")
